@@ -1228,7 +1228,7 @@ func runIlv(rec *recorder, r *rand.Rand, nseq int) {
 			// one transaction of the run / of the extension is removed or replaced
 			sd := 1 + r.Intn(nSenders)
 			k1 := 1 + r.Intn(3)
-			k2 := k1 + 1 + r.Intn(2)
+			k2 := k1 + 1 + r.Intn(4) // the suspended step promotes 1..4 transactions: a removal in the MIDDLE of its batch needs >= 3
 			var run []int
 			for ni := 0; ni < k2 && ni < 5 && !s.dead; ni++ {
 				id := txID(sd, ni, 1+r.Intn(2), r.Intn(nVariants))
